@@ -785,7 +785,7 @@ func init() {
 	p.Strata = append(p.Strata, mon.Stratum{
 		Name:       "process-environment",
 		CLI:        true,
-		N:          n(3 * 3 * 6),
+		N:          n(3 * 3 * 12),
 		Exhaustive: always,
 		Run: func(c *mon.Ctx, i int) {
 			// what the binaries print must depend on the flags and the CONTENT of the inputs only: not on what
@@ -793,7 +793,7 @@ func init() {
 			// argument is spelled (/dev/stdin), and surplus arguments are a usage error
 			bin := Binaries[i%3]
 			f := []string{"", "patch", "merge"}[(i/3)%3]
-			kind := (i / 9) % 6
+			kind := (i / 9) % 12
 			aT, bT := `{"a":[1,2],"s":"x"}`, `{"a":[1,3],"s":"<y>"}`
 			var fl []string
 			if f != "" {
@@ -841,10 +841,91 @@ func init() {
 				if r.Status != 2 || r2.Status != 2 {
 					c.Violation(fmt.Sprintf("surplus arguments are accepted (status %d / %d): an option written after the file names is silently ignored", r.Status, r2.Status), map[string]any{"stdout": r.Stdout, "stdout_p": r2.Stdout})
 				}
-			default: // /dev/stdin as a FILE argument reads what the one-argument form reads
+			case 5: // /dev/stdin as a FILE argument reads what the one-argument form reads
 				r := RunCLI(c, bin, append(append([]string{}, fl...), "a.json", "/dev/stdin"), bT, nil)
 				if r.Status != ref0.Status || r.Stdout != ref0.Stdout {
 					c.Violation("naming /dev/stdin as FILE2 gives another result than naming the file", map[string]any{"dev_stdin": fmt.Sprint(r.Status, r.Stdout, r.Stderr), "file": fmt.Sprint(ref0.Status, ref0.Stdout)})
+				}
+			case 6: // an -o target that cannot be written is an error (finding F36), whatever the inputs
+				os.MkdirAll(filepath.Join(c.WorkDir, "adir"), 0o755)
+				for _, tgt := range []string{"adir", "no/such/dir/out.txt"} {
+					for _, second := range []string{"b.json", "a2.json"} {
+						r := RunCLI(c, bin, append(append([]string{"-o", tgt}, fl...), "a.json", second), "", map[string]string{"a2.json": aT})
+						if r.Status != 2 || r.Stdout != "" {
+							c.Violation(fmt.Sprintf("-o %s cannot be written, yet the run exits %d", tgt, r.Status), map[string]any{"second_input": second, "stdout": r.Stdout, "stderr": r.Stderr})
+							return
+						}
+					}
+				}
+				if f == "" {
+					rp := RunCLI(c, bin, []string{"-o", "adir", "-p", "p.diff", "a.json"}, "", map[string]string{"p.diff": ref0.Stdout})
+					rt := RunCLI(c, bin, []string{"-o", "adir", "-t", "json2yaml", "a.json"}, "", nil)
+					if rp.Status != 2 || rt.Status != 2 {
+						c.Violation(fmt.Sprintf("-o onto a directory in patch / translate mode exits %d / %d, not 2", rp.Status, rt.Status), nil)
+					}
+				}
+			case 7: // boolean flags mean their VALUE: -set=false is no -set, --set is -set, the last occurrence wins
+				aS, bS := `{"a":[1,2,2]}`, `{"a":[2,1]}`
+				run := func(flags ...string) string {
+					r := RunCLI(c, bin, append(append(append([]string{}, flags...), fl...), "sa.json", "sb.json"), "", map[string]string{"sa.json": aS, "sb.json": bS})
+					return fmt.Sprint(r.Status) + "|" + r.Stdout
+				}
+				plain, set, mset := run(), run("-set"), run("-mset")
+				for name, pair := range map[string][2]string{"-set=false": {run("-set=false"), plain}, "--set": {run("--set"), set}, "-set -set=false": {run("-set", "-set=false"), plain},
+					"-mset=false": {run("-mset=false"), plain}, "--mset=true": {run("--mset=true"), mset}, "-set=false -mset": {run("-set=false", "-mset"), mset}, "-yaml=false": {run("-yaml=false"), plain}, "-color=false": {run("-color=false"), plain}} {
+					if pair[0] != pair[1] {
+						c.Violation("the flag spelling "+name+" does not mean what its value says", map[string]any{"got": pair[0], "want": pair[1]})
+						return
+					}
+				}
+			case 8: // a format jd does not know is refused in every mode
+				for _, bad := range []string{"jdd", "json", "MERGE", "yaml", "Patch"} {
+					r := RunCLI(c, bin, []string{"-f", bad, "a.json", "b.json"}, "", nil)
+					rp := RunCLI(c, bin, []string{"-p", "-f", bad, "p.diff", "a.json"}, "", map[string]string{"p.diff": "@ [\"s\"]\n- \"x\"\n+ \"z\"\n"})
+					if r.Status != 2 || rp.Status != 2 || r.Stdout != "" || rp.Stdout != "" {
+						c.Violation(fmt.Sprintf("-f %s is accepted (diff mode status %d, patch mode status %d)", bad, r.Status, rp.Status), map[string]any{"stdout": r.Stdout, "stdout_p": rp.Stdout})
+						return
+					}
+				}
+			case 9: // one document per input: text after a complete JSON value is an error, not ignored
+				for name, text := range map[string]string{"two documents": aT + " " + bT, "NDJSON": aT + "\n" + bT + "\n", "trailing word": aT + " trailing", "stray bracket": aT + "]"} {
+					r := RunCLI(c, bin, append(append([]string{}, fl...), "a.json", "g.json"), "", map[string]string{"g.json": text})
+					r2 := RunCLI(c, bin, append(append([]string{}, fl...), "a.json"), text, nil)
+					if r.Status != 2 || r2.Status != 2 {
+						c.Violation(fmt.Sprintf("an input holding %s is accepted (file: status %d, stdin: status %d)", name, r.Status, r2.Status), map[string]any{"stdout": r.Stdout})
+						return
+					}
+				}
+				if f == "patch" {
+					r := RunCLI(c, bin, []string{"-p", "-f", "patch", "p.json", "a.json"}, "", map[string]string{"p.json": ref0.Stdout + " []"})
+					if r.Status != 2 {
+						c.Violation(fmt.Sprintf("a JSON Patch text followed by a second value is accepted in patch mode (status %d)", r.Status), map[string]any{"stdout": r.Stdout})
+					}
+				}
+				if f == "" {
+					r := RunCLI(c, bin, []string{"-p", "p.diff", "a.json"}, "", map[string]string{"p.diff": "@ [\"s\"]\n- \"x\"\n+ \"z\" \"q\"\n"})
+					if r.Status != 2 {
+						c.Violation(fmt.Sprintf("a diff line holding two values is accepted (status %d)", r.Status), map[string]any{"stdout": r.Stdout})
+					}
+				}
+			case 10: // CR LF line ends and blank lines in a diff text: a result or an error, never a crash
+				crlf := strings.ReplaceAll(ref0.Stdout, "\n", "\r\n")
+				for _, text := range []string{crlf, crlf + "\r\n", "\r\n" + crlf, strings.Replace(crlf, "\r\n", "\r\n\r\n", 1), "\r\n"} {
+					r := RunCLI(c, bin, append(append([]string{"-p"}, fl...), "p.txt", "a.json"), "", map[string]string{"p.txt": text})
+					if HasCrashMarkers(r.Stderr) || r.Status < 0 || r.Status > 2 {
+						c.Violation("a patch text with CR LF line ends crashes the binary", map[string]any{"text": text, "stderr": r.Stderr, "status": r.Status})
+						return
+					}
+				}
+			default: // bytes that are not UTF-8 text at all (UTF-16 with a byte order mark, odd length, NUL)
+				for _, blob := range []string{"\xff\xfe{\x00}", "\xff\xfe{\x00}\x00", "\xfe\xff\x00{\x00}", "\x00", "{\"a\":\x00}", "\xef\xbb\xbf\xef\xbb\xbf{}"} {
+					for _, args := range [][]string{append(append([]string{}, fl...), "a.json", "blob.bin"), {"-p", "blob.bin", "a.json"}, {"-t", "json2yaml", "blob.bin"}} {
+						r := RunCLI(c, bin, args, "", map[string]string{"blob.bin": blob})
+						if HasCrashMarkers(r.Stderr) || r.Status < 0 || r.Status > 2 {
+							c.Violation("an input that is not UTF-8 text crashes the binary", map[string]any{"blob": fmt.Sprintf("%q", blob), "argv": fmt.Sprint(args), "stderr": r.Stderr, "status": r.Status})
+							return
+						}
+					}
 				}
 			}
 		},
